@@ -4,11 +4,11 @@ CFG = {'level': 'exploration',
  'design_ref': '5.11 C11',
  'technique': 'runtime monitoring: round-trip, no-upper-case, pairwise case-fold distinctness and exact-image monitors on EscapePath/UnescapePath and '
               'EscapeVersion/UnescapeVersion, with input validity decided by the clause model of the doc comments (ref/refpath)',
- 'level_text': 'EscapePath/EscapeVersion are run on ~1.2e6 (quick) / ~9e6 (thorough) generated module paths and versions (valid by construction with dense '
+ 'level_text': 'EscapePath/EscapeVersion are run on ~1.2e6 (quick) / ~4.5e7 (thorough) generated module paths and versions (valid by construction with dense '
                'upper/lower variation, single-edit mutations, import/file paths, non-semver words, token soup) and every accepted input is checked '
                'for: accepted iff documented-valid, no upper case in the escaped form, Unescape(Escape(x)) == x, no other input seen with a '
-               'case-fold-equal escape; all 2^k casings (k<=8) of random skeletons are escaped and compared pairwise (~6e6 / ~5e7 pairs); '
-               'UnescapePath/UnescapeVersion are run on ~8e5 / ~6e6 strings in and around the image (escapes, one-edit mutants with !!, trailing !, '
+               'case-fold-equal escape; all 2^k casings (k<=8) of random skeletons are escaped and compared pairwise (~6e6 / ~2.5e8 pairs); '
+               'UnescapePath/UnescapeVersion are run on ~8e5 / ~3e7 strings in and around the image (escapes, one-edit mutants with !!, trailing !, '
                '!A, !1, bare upper case, non-ASCII, soup): success requires a documented-valid result whose Escape is the argument. '
                'Held-on-observed only.',
  'level_note': 'Trusts ref/refpath for which inputs are valid. Inputs on which doc comment and behaviour differ (the open clauses of C06 and versions '
